@@ -1,6 +1,7 @@
 package main
 
 import (
+	"os"
 	"fmt"
 	"go/token"
 	"go/types"
@@ -137,32 +138,68 @@ func init() {
 			for _, f := range hotspotCheckers(c.P) {
 				isConc := strings.HasSuffix(fnKey(f), "performCheckingForConcurrencyMetric")
 				if !isConc {
+					// the value tested against 0 / used as the token count: every alternative of it is the looked-up specific
+					// item (where the lookup found one) or the general threshold, and both occur - however the choice is
+					// written (if/else, a helper returning the value or a small struct)
 					ok := false
 					eachInstr(f, func(ins ssa.Instruction) {
-						phi, isPhi := ins.(*ssa.Phi)
-						if !isPhi || len(phi.Edges) != 2 {
+						b, isB := ins.(*ssa.BinOp)
+						if !isB || !isComparison(b.Op) || ok {
 							return
 						}
-						gen, spec := false, false
-						for i, e := range phi.Edges {
-							p := accessPath(e)
-							fs := canonFacts(phi.Block().Preds[i], edgeFact(phi.Block().Preds[i], phi.Block())...)
-							if strings.HasSuffix(p, ".threshold") && !strings.Contains(p, "specificItems") {
-								gen = true
-							}
-							if strings.HasSuffix(p, ".specificItems[{any}]#0") && fs[strings.TrimSuffix(p, "#0")+"#1"] {
-								spec = true
-							}
+						z, isZ := constInt(b.Y)
+						if !isZ || z != 0 {
+							return
 						}
-						if gen && spec {
-							// and it is this value that is tested against 0 / used as the token count
-							for _, r := range refsOf(phi) {
-								if b, isB := r.(*ssa.BinOp); isB && isComparison(b.Op) {
-									if z, isZ := constInt(b.Y); isZ && z == 0 {
-										ok = true
+						cases := splitPhiCases(stripConv(b.X), b.Block(), nil, 0)
+						if os.Getenv("SG_DEBUG_HS") != "" {
+							fmt.Fprintf(os.Stderr, "DEBUG %s cmp0 X=%T %v cases=%d\n", fnKey(f), stripConv(b.X), stripConv(b.X), len(cases))
+							if u, ok := stripConv(b.X).(*ssa.UnOp); ok {
+								fmt.Fprintf(os.Stderr, "   UnOp X=%T %v\n", u.X, u.X)
+								if fa, ok := u.X.(*ssa.FieldAddr); ok {
+									fmt.Fprintf(os.Stderr, "   FieldAddr X=%T %v\n", fa.X, fa.X)
+									if al, ok := fa.X.(*ssa.Alloc); ok {
+										for _, r := range refsOf(al) {
+											fmt.Fprintf(os.Stderr, "      ref %T %v\n", r, r)
+											if st, ok := r.(*ssa.Store); ok {
+												fmt.Fprintf(os.Stderr, "        val %T %v\n", st.Val, st.Val)
+												if ph, ok := st.Val.(*ssa.Phi); ok {
+													for _, e := range ph.Edges {
+														fmt.Fprintf(os.Stderr, "          edge %T %v\n", e, e)
+														if u2, ok := e.(*ssa.UnOp); ok {
+															fmt.Fprintf(os.Stderr, "            X %T %v\n", u2.X, u2.X)
+															if a2, ok := u2.X.(*ssa.Alloc); ok {
+																for _, r2 := range refsOf(a2) {
+																	fmt.Fprintf(os.Stderr, "              ref %T %v\n", r2, r2)
+																}
+															}
+														}
+													}
+												}
+											}
+										}
 									}
 								}
 							}
+						}
+						if len(cases) < 2 {
+							return
+						}
+						gen, spec, other := false, false, false
+						for _, cs := range cases {
+							p := accessPath(cs.val)
+							fs := canonFacts(cs.block, cs.extra...)
+							switch {
+							case strings.HasSuffix(p, ".threshold") && !strings.Contains(p, "specificItems"):
+								gen = true
+							case strings.HasSuffix(p, ".specificItems[{any}]#0") && fs[strings.TrimSuffix(p, "#0")+"#1"]:
+								spec = true
+							default:
+								other = true
+							}
+						}
+						if gen && spec && !other {
+							ok = true
 						}
 					})
 					c.Check(ok, fnKey(f)+" / token-count", f.Pos(), "token count = specificItems[arg] when present, else the rule threshold")
@@ -177,8 +214,17 @@ func init() {
 							return
 						}
 						for _, r := range refsOf(ld) {
-							switch r.(type) {
+							switch x := r.(type) {
 							case *ssa.Phi, *ssa.DebugRef:
+							case *ssa.Store:
+								// parked in a local (a result variable or the field of a result struct of an inlined helper)
+								root := x.Addr
+								if fa, ok := root.(*ssa.FieldAddr); ok {
+									root = fa.X
+								}
+								if _, local := root.(*ssa.Alloc); !local || x.Val != ssa.Value(ld) {
+									stray = c.P.Pos(r.Pos())
+								}
 							default:
 								stray = c.P.Pos(r.Pos())
 							}
@@ -342,34 +388,64 @@ func init() {
 				})
 			}
 			n := 0
+			// checkIndex judges one indexing of the argument list; env renders the values of a callee (an accessor of the
+			// input added later, possibly in another package) in the caller's terms; at is the instruction of the scope
+			// that stands for the positional lookup when ordering it against the attachment lookup
+			checkIndex := func(ia *ssa.IndexAddr, env map[ssa.Value]string, at ssa.Instruction) {
+				var ip string
+				var fs map[string]bool
+				withPathEnv(env, func() {
+					ip = accessPath(ia.Index)
+					fs = canonFacts(ia.Block())
+				})
+				n++
+				lo := fs["0 <= "+ip]
+				hi := fs[ip+" < builtin len({EntryContext}.Input.Args)"]
+				neg := false
+				for _, idx := range []string{"{baseTrafficShapingController}.BoundParamIndex()", "{baseTrafficShapingController}.paramIndex"} {
+					if strings.Contains(ip, "(builtin len({EntryContext}.Input.Args) + "+idx+")") || strings.Contains(ip, "("+idx+" + builtin len({EntryContext}.Input.Args))") {
+						neg = true
+					}
+				}
+				c.Check(lo && hi && neg, fmt.Sprintf("%s / index#%d", fnKey(ex), n), ia.Pos(), "args[%s] under 0<=idx (%v), idx<len(args) (%v), negative index mapped by len+idx (%v)", ip, lo, hi, neg)
+				// positional lookup only after the attachment lookup yielded nil
+				if look != nil && at.Parent() == look.Parent() {
+					after := !instrReaches(at, look) && instrReaches(look, at)
+					nilFact := false
+					for k := range canonFacts(at.Block()) {
+						if strings.Contains(k, ".Input.Attachments") && (strings.HasSuffix(k, " == nil") || strings.HasPrefix(k, "nil == ")) {
+							nilFact = true
+						}
+					}
+					c.Check(after && nilFact, fmt.Sprintf("%s / attachment-first#%d", fnKey(ex), n), ia.Pos(), "positional lookup only after the attachment lookup (%v) and under 'attachment value == nil' (%v)", after, nilFact)
+				}
+			}
 			for _, f := range scope {
 				eachInstr(f, func(ins ssa.Instruction) {
-					ia, ok := ins.(*ssa.IndexAddr)
-					if !ok || !strings.HasSuffix(accessPath(ia.X), "{EntryContext}.Input.Args") {
-						return
-					}
-					n++
-					ip := accessPath(ia.Index)
-					fs := canonFacts(ia.Block())
-					lo := fs["0 <= "+ip]
-					hi := fs[ip+" < builtin len({EntryContext}.Input.Args)"]
-					neg := false
-					for _, idx := range []string{"{baseTrafficShapingController}.BoundParamIndex()", "{baseTrafficShapingController}.paramIndex"} {
-						if strings.Contains(ip, "(builtin len({EntryContext}.Input.Args) + "+idx+")") || strings.Contains(ip, "("+idx+" + builtin len({EntryContext}.Input.Args))") {
-							neg = true
+					switch x := ins.(type) {
+					case *ssa.IndexAddr:
+						if strings.HasSuffix(accessPath(x.X), "{EntryContext}.Input.Args") {
+							checkIndex(x, nil, x)
 						}
-					}
-					c.Check(lo && hi && neg, fmt.Sprintf("%s / index#%d", fnKey(ex), n), ia.Pos(), "args[%s] under 0<=idx (%v), idx<len(args) (%v), negative index mapped by len+idx (%v)", ip, lo, hi, neg)
-					// positional lookup only after the attachment lookup yielded nil
-					if look != nil && f == look.Parent() {
-						after := !instrReaches(ia, look) && instrReaches(look, ia)
-						nilFact := false
-						for k := range fs {
-							if strings.Contains(k, ".Input.Attachments") && (strings.HasSuffix(k, " == nil") || strings.HasPrefix(k, "nil == ")) {
-								nilFact = true
+					case *ssa.Call:
+						// a new accessor of the input (e.g. SentinelInput.ArgAt(idx)) does the indexing
+						cal := x.Call.StaticCallee()
+						if cal == nil || !isNewFunc(cal) || cal.Blocks == nil || len(cal.Params) != len(x.Call.Args) {
+							return
+						}
+						env := map[ssa.Value]string{}
+						for k, prm := range cal.Params {
+							env[prm] = accessPath(x.Call.Args[k])
+						}
+						eachInstr(cal, func(in2 ssa.Instruction) {
+							if ia, ok := in2.(*ssa.IndexAddr); ok {
+								var base string
+								withPathEnv(env, func() { base = accessPath(ia.X) })
+								if strings.HasSuffix(base, "{EntryContext}.Input.Args") {
+									checkIndex(ia, env, x)
+								}
 							}
-						}
-						c.Check(after && nilFact, fmt.Sprintf("%s / attachment-first#%d", fnKey(ex), n), ia.Pos(), "positional lookup only after the attachment lookup (%v) and under 'attachment value == nil' (%v)", after, nilFact)
+						})
 					}
 				})
 			}
